@@ -566,3 +566,13 @@ func init() {
 		},
 	})
 }
+
+func init() {
+	replayDrivers = append(replayDrivers, replayDriver{
+		match: func(n string) bool { return strings.Contains(n, "#chansend.C15.primary-reports-only") },
+		run: func(r *Report, o *Obligation, sr *SolveResult) ReplayResult {
+			out, conf := goReplay(r, "cmd/keymasterd", "keymasterd_storage_replay_test.go", "TestVerifReplayUnreachablePrimaryFallsBackToCache", map[string]string{})
+			return ReplayResult{Confirmed: conf, Summary: replaySummary(out), Output: truncate(out, 4000), Driver: "TestVerifReplayUnreachablePrimaryFallsBackToCache (history of the model: the primary fails before the query - its handle is closed - with the profile and the signed record mirrored in the cache)"}
+		},
+	})
+}
